@@ -39,6 +39,8 @@ import (
 	"net/http"
 	"net/http/httptest"
 	"net/url"
+	"os"
+	"path/filepath"
 	"sort"
 	"strings"
 	"testing"
@@ -1924,7 +1926,28 @@ func TestC13(t *testing.T) {
 		if !have {
 			continue
 		}
-		env, err := newEnv(t, EnvOpts{Namespaces: cfg.toKeto()})
+		// every fifth batch serves the same namespaces from a legacy namespace
+		// directory (one JSON/YAML file per namespace) that also contains a file
+		// that never parsed: another namespace manager behind the same handlers
+		opts := EnvOpts{Namespaces: cfg.toKeto()}
+		if idx%5 == 4 {
+			dir, derr := os.MkdirTemp(scratchDir(), "c13ns")
+			if derr == nil {
+				for i, n := range cfg.NS {
+					ext, content := ".json", fmt.Sprintf("{\"id\": %d, \"name\": %q}\n", i+1, n.Name)
+					if i%2 == 1 {
+						ext, content = ".yml", fmt.Sprintf("id: %d\nname: %s\n", i+1, n.Name)
+					}
+					_ = os.WriteFile(filepath.Join(dir, fmt.Sprintf("ns%d%s", i, ext)), []byte(content), 0o644)
+				}
+				_ = os.WriteFile(filepath.Join(dir, "broken.json"), []byte("{\"id\": 99, \"name\": "), 0o644)
+				_ = os.WriteFile(filepath.Join(dir, "broken2.yaml"), []byte("name: [unclosed\n"), 0o644)
+				opts = EnvOpts{NamespacesValue: "file://" + dir}
+				defer os.RemoveAll(dir)
+				run.count("batches_on_legacy_namespace_directory", 1)
+			}
+		}
+		env, err := newEnv(t, opts)
 		if err != nil {
 			run.inconclusive(fmt.Sprintf("idx %d: env: %v", idx, err))
 			continue
@@ -1967,6 +1990,32 @@ func TestC13(t *testing.T) {
 					run.sample(map[string]any{"state": st.Tuples, "request": q, "verdict": v})
 				}
 			}
+		}
+		if fatalMode && len(st.tuples) > 0 {
+			// clients that hang up: check requests abandoned after 20 us .. 3 ms. Nothing
+			// is judged but survival: a goroutine that outlives its request must not
+			// take the process down (the supervisor sees a death on this journalled case).
+			run.begin(idx, "abandoned-checks", map[string]any{"requests": 24, "state": st.Tuples})
+			ar := p.rng(idx, "abandon")
+			for k := 0; k < 24; k++ {
+				tq := st.tuples[ar.IntN(len(st.tuples))]
+				d := time.Duration(20+ar.IntN(3000)) * time.Microsecond
+				switch k % 3 {
+				case 0:
+					httpDoCtx(env.Ctx, d, x.read, "GET", "/relation-tuples/check?"+tq.ToURLQuery().Encode(), "", nil)
+				case 1:
+					b, _ := json.Marshal(map[string]any{"tuples": []*Tup{tq, tq}})
+					httpDoCtx(env.Ctx, d, x.read, "POST", "/relation-tuples/batch/check", string(b), nil)
+				default:
+					cctx, cancel := context.WithTimeout(env.Ctx, d)
+					_, _ = g.Check.Check(cctx, &rts.CheckRequest{Tuple: tq.ToProto()})
+					cancel()
+				}
+			}
+			quiesce(2 * time.Second)
+			run.eval(24)
+			run.count("abandoned_check_requests", 24)
+			run.end(idx, "abandoned-checks", "ok")
 		}
 		g.Close()
 		env.Close()
